@@ -233,6 +233,16 @@ template <class F> std::string exec(const F& f, const Toks& a) {
     else if (op == "inv")      { Pol A = P(2), R = junk(1); PD.inv(R, A); outP(R); }
     else if (op == "invin")    { Pol R = P(2); PD.invin(R); outP(R); }
     else if (op == "shiftin")  { Pol R = P(2); PD.shiftin(R, (int)num(a.at(3))); outP(R); }
+    else if (op == "random") {   // random / nonzerorandom overloads: a[2] = 0|s|d|b, a[3] = nonzerorandom?, a[4] = argument
+        const std::string& ov = a.at(2); const bool nzf = num(a.at(3)) != 0; const long long v = num(a.at(4));
+        GivRandom gen((uint64_t)(h | 1));
+        Pol R = junk(3);
+        if (ov == "0") { if (nzf) PD.nonzerorandom(gen, R); else PD.random(gen, R); }
+        else if (ov == "s") { if (nzf) PD.nonzerorandom(gen, R, (uint64_t)v); else PD.random(gen, R, (uint64_t)v); }
+        else if (ov == "d") { if (nzf) PD.nonzerorandom(gen, R, Degree(v)); else PD.random(gen, R, Degree(v)); }
+        else { Pol B((size_t)v, f.one); if (nzf) PD.nonzerorandom(gen, R, B); else PD.random(gen, R, B); }
+        outP(R);
+    }
     else if (op == "modpowxin"){ Pol R = P(2); PD.modpowxin(R, Degree(num(a.at(3)))); outP(R); }
     else if (op == "wrappers") {   // givpoly1dense.h: characteristic / cardinality / setDegree / getdomain
         Pol A = P(2);
@@ -303,6 +313,16 @@ static std::string exec_padic(const Modular<int32_t>& f, const Toks& a) {
         PD_t::Element A = parseVec(f, a.at(2));
         uint64_t e = 0; PAD.eval(e, A);
         return vp::hex_ull(e);
+    }
+    if (a.at(0) == "padic_evaldirect") {   // evaldirect<uint64_t>: the coefficients as they are stored (canonical residues)
+        PD_t::Element A = parseVec(f, a.at(2));
+        uint64_t e = 0; PAD.evaldirect(e, A);
+        return vp::hex_ull(e);
+    }
+    if (a.at(0) == "padic_radixdirect") {   // radixdirect with an integral value: exactly n digits, raw storage
+        uint64_t e = strtoull(a.at(2).c_str(), nullptr, 16);
+        PD_t::Element R(3, f.one); PAD.radixdirect(R, e, (uint64_t)num(a.at(3)));
+        return showVec(f, R);
     }
     if (a.at(0) == "padic_radixn") {   // explicit number of digits
         Integer e; mpz_set_str(e.get_mpz(), a.at(2).c_str(), 16);
@@ -499,6 +519,14 @@ static void gen_field(Gen& g, const std::string& tier, const std::string& profil
             g.emit("setentry", {A, g.scalar((int)g.rng.below(4)), H((long)g.rng.below(d + 4))});
             g.emit("modinv", {A, g.nz()}); g.emit("modv", {A, g.nz()});
             g.emit("shiftin", {A, H((long)g.rng.below(4))});
+            if (!g.isQ && rep == 0) {   // shapes of random / nonzerorandom: no argument, size (0 included), Degree (deginfty included), like b
+                for (const char* nzf : {"0", "1"}) {
+                    g.emit("random", {"0", nzf, "0"});
+                    g.emit("random", {"s", nzf, H(d + 1)});
+                    g.emit("random", {"d", nzf, H(d)});
+                    g.emit("random", {"b", nzf, H(d + 1)});
+                }
+            }
             g.emit("modpowxin", {A, H((long)g.rng.below(d + 3))});
             if (d == 0) { g.emit("inv", {A}); g.emit("invin", {A}); }
             if (rep == 0) {
@@ -582,6 +610,27 @@ static void gen_field(Gen& g, const std::string& tier, const std::string& profil
             if (sa == 2 * sb - 1) g.emit("rkaramidmul", {H(sb), A, B});
         }
     }
+    // ---------------- middle product: every shape class of the generic dispatch (m = |P|-|Q|+1, n = |Q|): schoolbook, balanced,
+    // m > n (blocks along P, with and without a rest), m < n (blocks along Q accumulated into R, with and without a rest);
+    // all of them above the threshold in the threshold-2 build
+    {
+        const long lim = karaonly ? (thorough ? 16 : 12) : (g.isQ ? 4 : 6);
+        for (long m = 1; m <= lim; ++m) for (long n = 1; n <= lim; ++n) {
+            if (!karaonly && ((m + n) % 2)) continue;
+            std::string A = g.poly(m + n - 2, (int)g.rng.below(4) == 0 ? 4 : 0), B = g.poly(n - 1, (int)g.rng.below(5) == 0 ? 4 : 0);
+            g.emit("midmul", {A, B}); g.emit("rmidmul", {H(m), A, B});
+        }
+        if (!g.isQ) {
+            const long T0 = KARA_THRESHOLD;
+            std::vector<std::pair<long, long>> big = {{T0 + 1, 2 * T0 + 3}, {2 * T0 + 5, T0 + 1}, {T0 + 2, T0 + 1}, {T0 + 1, T0 + 2}, {T0 + 1, T0 + 1}};
+            if (thorough) { big.push_back({T0 + 1, 3 * T0 + 4}); big.push_back({3 * T0 + 3, T0 + 1}); big.push_back({2 * T0 + 2, 2 * T0 + 2}); }
+            for (auto& mn : big) {
+                std::string A = g.poly(mn.first + mn.second - 2, 0), B = g.poly(mn.second - 1, 0);
+                g.emit("midmul", {A, B}); g.emit("rmidmul", {H(mn.first), A, B});
+                if (mn.first == mn.second) g.emit("rkaramidmul", {H(mn.first), A, B});
+            }
+        }
+    }
     // ---------------- operands sharing a large common factor
     for (int rep = 0; rep < (thorough ? 40 : 12); ++rep) {
         long dg = 1 + (long)g.rng.below(dmax), da = (long)g.rng.below(4) - 1, db = (long)g.rng.below(4);
@@ -644,6 +693,22 @@ static void gen_field(Gen& g, const std::string& tier, const std::string& profil
                 g.emit("rtr", {Gen::tok(xs), g.poly((long)g.rng.below(n + 2) - 1, g.pick_norm_shape())});
             }
         }
+        // Newton interpolation: no point at all, one point, and longer divided-difference columns (fields large enough)
+        g.emit("interp", {"[]", "[]"});
+        for (long n : {(long)16, (long)33, (long)64}) {
+            if (g.isQ ? n > 16 : Integer(4 * n) > g.p) continue;
+            if (!thorough && n > 33) continue;
+            std::set<std::string> seen; std::vector<std::string> xs, fs;
+            int guard = 0;
+            while ((long)xs.size() < n && guard++ < 100000) { std::string x = g.isQ ? vp::hex_ll((long long)xs.size() - 5) + "/1" : g.scalar(5); if (seen.insert(x).second) xs.push_back(x); }
+            if ((long)xs.size() < n) continue;
+            // values of a polynomial of low degree (the top of the column must vanish) or arbitrary values
+            for (long i = 0; i < n; ++i) fs.push_back(g.isQ ? g.scalar((int)g.rng.below(4)) : g.scalar());
+            g.emit("interp", {Gen::tok(xs), Gen::tok(fs)});
+            g.emit("crt", {Gen::tok(xs), Gen::tok(fs)});
+            std::vector<std::string> cst(n, g.nz());
+            g.emit("interp", {Gen::tok(xs), Gen::tok(cst)});
+        }
         if (g.ftok.compare(0, 2, "p:") == 0)
             for (int rep = 0; rep < (thorough ? 60 : 20); ++rep) {
                 long d = (long)g.rng.below(12);
@@ -654,6 +719,14 @@ static void gen_field(Gen& g, const std::string& tier, const std::string& profil
                     g.emit("interpgeom", {g.poly(dg, g.pick_norm_shape()), vp::hex_ll((dg < 0 ? 1 : dg + 1) + (long)g.rng.below(3))});
                 }
                 if (rep % 3 == 0) g.emit("padic_eval64", {g.poly((long)g.rng.below(3), g.pick_norm_shape())});
+                {   // direct conversions: digit counts 0, 1, exactly enough, too few (value mod p^n), more than enough (padding zeros)
+                    uint64_t v = rep < 3 ? (uint64_t)rep : (g.rng.next() >> (rep % 2 ? 8 : 40));
+                    long nd = 1; { Integer q(g.p); while (q <= Integer(v)) { q *= g.p; ++nd; } }
+                    long n = rep % 5 == 0 ? nd : rep % 5 == 1 ? nd + 2 : rep % 5 == 2 ? (nd > 1 ? nd - 1 : 0) : rep % 5 == 3 ? 1 : 0;
+                    g.emit("padic_radixdirect", {vp::hex_ull(v), vp::hex_ll(n)});
+                    long dmaxd = 0; { Integer q(g.p); while (q * g.p < (Integer(1) << 63)) { q *= g.p; ++dmaxd; } }
+                    g.emit("padic_evaldirect", {g.poly(rep == 7 ? -1 : (long)g.rng.below(dmaxd + 1), -1)});
+                }
                 Integer e(0); for (uint64_t k = 1 + g.rng.below(3); k--;) { e <<= 32; e += Integer((uint64_t)(g.rng.next() >> 32)); }
                 if (rep < 3) e = rep;
                 if (e > 0) g.emit("padic_radix", {vp::hex(e.get_mpz())});
